@@ -202,6 +202,7 @@ class Session:
         self.tier1 = []
         self.errors = []
         self.manifest = []   # (rust location, lean name, kind)
+        self.items = []      # what each item reads: dict(kind, rel, header, name, lean, …) (used by the self-test)
 
     def source(self, rel):
         if rel not in self.sources:
@@ -222,6 +223,7 @@ class Session:
 
     # ---- type declarations the translator needs to know about ---------------------------------
     def newtype(self, rel, name):
+        self.items.append({"kind": "newtype", "rel": rel, "name": name, "lean": name})
         def go():
             st = self.source(rel).struct(name)
             if st["kind"] != "tuple" or len(st["types"]) != 1 or st["types"][0] not in X.FLOATS:
@@ -232,6 +234,7 @@ class Session:
 
     def struct(self, rel, name, lean, fields, dropped=()):
         """`fields`: {rust path: (lean field, rust type)} in Lean constructor order; checked against the source"""
+        self.items.append({"kind": "struct", "rel": rel, "name": name, "lean": lean})
         def go():
             st = self.source(rel).struct(name)
             if st["kind"] != "named":
@@ -257,6 +260,7 @@ class Session:
         """read `enum name`; emit `Shape.<name>Tag` (always) and `Shape.<name>` with payloads (when every payload
         type has a Lean counterpart) into tier 0.  With `use_shape` translated functions range over the generated
         tag type (for enums whose hand type lives late in the import graph)."""
+        self.items.append({"kind": "enum", "rel": rel, "name": name, "lean": f"Shape.{name}Tag"})
         def go():
             en = self.source(rel).enum(name)
             tagname = f"Shape.{name}Tag"
@@ -307,6 +311,7 @@ class Session:
     def const(self, rel, header, name, lean, owner=None, tier=1, in_fn=None):
         """`const NAME: T = expr;` inside `header` (an impl, or with in_fn a fn body); registered under `owner`
         (a type) or the file"""
+        self.items.append({"kind": "const", "rel": rel, "header": header, "name": name, "in_fn": in_fn, "lean": lean})
         def go():
             c = self.source(rel).const(header, name, in_fn)
             lo = self.lower(rel, owner, c["what"])
@@ -348,6 +353,7 @@ class Session:
     def value_in_fn(self, rel, header, fn, pick, ty, lean, owner=None, tier=1):
         """a sub-expression of the (single-expression) body of `fn`, e.g. one field initialiser of the struct
         literal a `default()` returns, or the default argument of a `Parameter::new(…)` in a constructor"""
+        self.items.append({"kind": "value_in_fn", "rel": rel, "header": header, "name": fn, "pick": pick, "lean": lean})
         def go():
             fd = self.source(rel).fn(header, fn)
             what = fd["what"] + " " + " ".join(str(s[1]) for s in pick)
@@ -363,6 +369,8 @@ class Session:
                     owner=None):
         """argument `argi` of `field: callee(…)` in the body of `fn` (e.g. the default raw value a `Parameter`
         takes until a modulator-linked value is first read); `count` occurrences, which must all be equal"""
+        self.items.append({"kind": "default_arg", "rel": rel, "header": header, "name": fn, "field": field,
+                           "callee": callee, "lean": lean})
         def go():
             calls, what = self.source(rel).field_call(header, fn, field, callee)
             if len(calls) != count:
@@ -384,6 +392,8 @@ class Session:
     def snippet(self, rel, header, fn, first, last, inputs, outputs, lean, ret, tier=1):
         """a run of `let` statements inside an otherwise imperative fn, as a function of the named inputs
         returning the anonymous-constructor tuple of `outputs` (Lean type `ret`)"""
+        self.items.append({"kind": "snippet", "rel": rel, "header": header, "name": fn, "first": first, "last": last,
+                           "lean": lean})
         def go():
             blk, what = self.source(rel).let_range(header, fn, first, last)
             lo = self.lower(rel, None, what)
@@ -417,6 +427,7 @@ class Session:
         trait='Tweenable::interpolate': register as that trait fn at `self_type`;
         flatten_self={field: rust type}: the item takes these fields of `self` instead of `self`;
         generics={'T': (dict name, dict lean type, {fn: (lean field, [param types], ret)}, lean type of T)}"""
+        self.items.append({"kind": "fn", "rel": rel, "header": header, "name": name, "lean": lean})
         def go():
             fd = self.source(rel).fn(header, name)
             gmap, extra, implicit = {}, [], []
@@ -473,6 +484,7 @@ class Session:
         self.guarded(f"{rel}::{header}::{name}", go)
 
     def nat_const(self, rel, pattern, what, lean, doc, tier=0):
+        self.items.append({"kind": "nat_const", "rel": rel, "pattern": pattern, "name": what, "lean": lean})
         def go():
             m = anchor(X.strip_comments(src(rel)), pattern, what)
             self.emit(tier, def_nat(lean, m.group(1).replace("_", ""), doc))
